@@ -99,6 +99,9 @@ class SymExec:
         return t
 
     def eval(self, node: ast.AST, st: SPath) -> Tuple[Term, Type]:
+        if isinstance(node, ast.Dict) and not node.keys:
+            # an empty dict display is a fresh allocation: two of them are never the same container (nested-dict bookkeeping)
+            return ("fresh", "dict", f"{node.lineno}:{node.col_offset}"), ("dict", ANY, ANY)
         ctx = self.base_ctx.child(vars=dict(self.base_ctx.vars, **st.vars), subst_locals=False)
         t, ty = self.norm.eval(node, ctx)
         return self._rewrite(t, st), ty
@@ -310,9 +313,16 @@ class SymExec:
                 it, ity = self.eval(stmt.iter, st)
                 ety = self.norm.elem_type(ity)
                 self._havoc_target(stmt.target, inner, ety)
+            assigned = {n.id for s in stmt.body for n in ast.walk(s) if isinstance(n, ast.Name) and isinstance(n.ctx, ast.Store)}
+            # loop-carried locals have an unknown value at the start of an arbitrary iteration (accumulators: acc -> acc + x)
+            for name in assigned:
+                if name in inner.vars:
+                    inner.vars[name] = (("sym", name), inner.vars[name][1])
+            if isinstance(stmt, ast.For):
+                self._havoc_target(stmt.target, inner, ety)
+            inner.store = {}
             body_paths = SymExec(self.norm, self.base_ctx, self.max_paths).run(stmt.body, inner)
             st.events.append(("loop", body_paths, stmt))
-            assigned = {n.id for s in stmt.body for n in ast.walk(s) if isinstance(n, ast.Name) and isinstance(n.ctx, ast.Store)}
             if isinstance(stmt, ast.For):
                 assigned |= {n.id for n in ast.walk(stmt.target) if isinstance(n, ast.Name)}
             for name in assigned:
